@@ -83,6 +83,11 @@ fn fast_bitmap_transfer(buffer: &mut Vec<u32>, width: usize, bitmap: BitmapEvent
     let bitmap_dest_top = bitmap.dest_top as usize;
     let bitmap_width = bitmap.width as usize;
 
+    // An inverted rectangle would underflow the row and column counts below
+    if bitmap_dest_bottom < bitmap_dest_top || bitmap_dest_right < bitmap_dest_left {
+        return Err(Error::RdpError(RdpError::new(RdpErrorKind::InvalidSize, "Invalid destination rectangle")))
+    }
+
     let data = bitmap.decompress()?;
 
     // Use some unsafe method to faster
